@@ -22,6 +22,7 @@ RULE = ("grammar-generated task programs (profiles %s; trees and DAGs of tasks, 
 LEAN_MODULES = LEAN_MODULES + ctxhist.WITH_LEAN_MODULES
 THEOREMS = THEOREMS + ["AsynqModel.Contexts." + n for n in ctxhist.WITH_THEOREMS]
 RULE += "; plus " + ctxhist.WITH_RULE
+RULE += "; plus families hookenter, composite (Drv/Families6c.lean) crossthread and reawait (Drv/Families6t.lean), judged by direct expectation"
 TRUSTED = cc.TRUSTED_CORE + ["family ctxwith: hand-written Lean model AsynqModel.Contexts.runW (Lib/ContextsWith.lean: with-blocks of a "
                              "generator, generator.close(), unwinding) tied to the code by the differential run of "
                              "harness/checks/ctxhist.py only"]
@@ -38,6 +39,8 @@ def extra(tier, rng):
     res += cc.guard_cases(tier, rng)
     res += cc.corefam4.selfawait_cases(tier, cc.fork(rng, "selfawait"))
     res += ctxhist.with_cases(tier, cc.fork(rng, "ctxwith"))
+    res += cc.corefam6c.hookenter_cases(tier, cc.fork(rng, "hookenter")) + cc.corefam6c.composite_cases(tier, cc.fork(rng, "composite"))
+    res += cc.corefam6t.crossthread_cases(tier, cc.fork(rng, "crossthread")) + cc.corefam6t.reawait_cases(tier, cc.fork(rng, "reawait"))
     return res
 
 
